@@ -8,7 +8,9 @@ package c06
 //	    on a successfully opened document (errors are always acceptable)
 //	T3  the re-saved package is a readable zip without duplicate entries, contains a well-formed
 //	    regenerated main part, and - when the input's content types / package relationships were the
-//	    standard ones or in the class the library replaces by defaults - still locates exactly one main part
+//	    standard ones or in the class the library replaces by defaults - still locates exactly one main part;
+//	    an optional part the edits extended (numbering, notes, settings, styles) is well-formed in the re-saved
+//	    package when it was well-formed (or absent) in the input: the save of the edited document "works"
 
 import (
 	"bytes"
@@ -17,9 +19,11 @@ import (
 	"io"
 	"os"
 	"path/filepath"
+	"strconv"
 	"strings"
 
 	"github.com/zerx-lab/wordZero/pkg/document"
+	"github.com/zerx-lab/wordZero/pkg/style"
 
 	"wzverif/internal/kit"
 	"wzverif/internal/opc"
@@ -71,6 +75,72 @@ type inputInfo struct {
 	InstrSplit bool // a paragraph with more than one w:instrText (an instruction split over runs)
 	FldChars   int
 	Distinct   int // distinct attribute values of the main part (all elements)
+	// the optional parts Open only stores (optvocab.go: OptVocab.Parts), as they are in the input
+	Opt map[string]*optInfo
+}
+
+// optInfo: independent view of one optional part of the input.
+type optInfo struct {
+	Data       []byte
+	WF         bool // well-formed by the harness's checker (see wellFormed)
+	wfKnown    bool
+	RootLocal  string // first start element
+	RootSpace  string
+	RootPrefix string
+	Completes  bool // the root element is read to its end tag by encoding/xml
+	SelfClosed bool // <w:numbering .../>
+	Children   int  // start elements directly under the root (before the first decoder error)
+	Foreign    int  // those whose namespace is not the root's
+}
+
+// maxOptJudged: the clause on the re-saved optional parts is decided on parts up to this size (the checker takes about
+// 0.1 s per MB, more on deep nesting; what the edits splice in does not depend on the size of the part).
+const maxOptJudged = 1 << 20
+
+// wellFormed decides (once) whether the part was well-formed in the input.
+func (o *optInfo) wellFormed() bool {
+	if !o.wfKnown {
+		o.wfKnown = true
+		o.WF = xmlwf.Check(o.Data) == nil
+	}
+	return o.WF
+}
+
+func analyseOpt(data []byte) *optInfo {
+	o := &optInfo{Data: data}
+	dec := xml.NewDecoder(bytes.NewReader(data))
+	depth := 0
+	for {
+		before := dec.InputOffset()
+		tok, err := dec.Token()
+		if err != nil {
+			return o
+		}
+		switch t := tok.(type) {
+		case xml.StartElement:
+			depth++
+			switch depth {
+			case 1:
+				o.RootLocal, o.RootSpace = t.Name.Local, t.Name.Space
+				raw := data[before:dec.InputOffset()]
+				if i := bytes.IndexByte(raw, ':'); i > 0 && !bytes.ContainsAny(raw[:i], " \t\r\n>/") {
+					o.RootPrefix = string(raw[1:i])
+				}
+				o.SelfClosed = bytes.HasSuffix(raw, []byte("/>"))
+			case 2:
+				o.Children++
+				if t.Name.Space != o.RootSpace {
+					o.Foreign++
+				}
+			}
+		case xml.EndElement:
+			depth--
+			if depth == 0 {
+				o.Completes = true
+				return o
+			}
+		}
+	}
 }
 
 func (in *inputInfo) fold(t *tblInfo) {
@@ -149,6 +219,12 @@ func analyse(b []byte) *inputInfo {
 	}
 	in.HasMain = true
 	in.MainLen = len(main)
+	in.Opt = map[string]*optInfo{}
+	for _, name := range TheOptVocab().Parts {
+		if d, ok := pkg.Parts[name]; ok {
+			in.Opt[name] = analyseOpt(d)
+		}
+	}
 	dec := xml.NewDecoder(bytes.NewReader(main))
 	type frame struct {
 		local string
@@ -335,6 +411,7 @@ type judge struct {
 	in      *inputInfo
 	calls   int
 	openErr error
+	follow  []string // the drawn follow-up script of the case
 }
 
 // call runs one library call under recover; a panic is a T2 failure of the given clause.
@@ -377,10 +454,10 @@ func judgePre(res *kit.Result, pre []*XMLPart) {
 }
 
 // judgeOpen evaluates T1-T3 on one byte string. via: "mem" (OpenFromMemory) or "file" (Open(path)).
-func judgeOpen(res *kit.Result, b []byte, via string) *inputInfo {
+func judgeOpen(res *kit.Result, b []byte, via string, follow []string) *inputInfo {
 	document.VerifResetGlobals()
 	in := analyse(b)
-	j := &judge{res: res, in: in}
+	j := &judge{res: res, in: in, follow: follow}
 
 	var doc *document.Document
 	var err error
@@ -594,8 +671,15 @@ func (j *judge) followUp(doc *document.Document) {
 		}
 	}
 
-	// document-level edit script
+	// the calls that read / extend the optional parts Open only stored: first in the order the case drew, then all of them
 	res.Eval(E)
+	if len(j.follow) > 0 {
+		res.Label("follow:drawn")
+		j.runFollow(doc, j.follow, "drawn script")
+	}
+	j.runFollow(doc, DefaultFollow, "fixed script")
+
+	// document-level edit script
 	j.call(E, "AddParagraph", "", func() { doc.AddParagraph("added paragraph") })
 	j.call(E, "AddHeadingParagraph", "", func() { doc.AddHeadingParagraph("added heading", 1) })
 	j.call(E, "AddTable", "", func() { doc.AddTable(&document.TableConfig{Rows: 2, Cols: 2, Width: 4000}) })
@@ -650,6 +734,7 @@ func (j *judge) checkSaved(out []byte) {
 	if err := xmlwf.Check(main); err != nil {
 		res.Fail("C06.T3.main-wf", "regenerated word/document.xml is not well-formed: %v", err)
 	}
+	j.checkOptParts(pkg)
 	// C01.P3, only where the statement of C06 can demand it: content types and package relationships of the input
 	// were the standard ones, or absent / unreadable as XML (the documented fall-back to defaults)
 	if j.in.CTClass == "other" || j.in.RelsClass == "other" {
@@ -680,5 +765,167 @@ func (j *judge) checkSaved(out []byte) {
 		res.Fail(P3, "main document target %q is not in the re-saved package", mains[0].Target)
 	} else if ct, _ := pkg.ContentTypeOf(tgt); !strings.Contains(ct, "wordprocessingml.document.main+xml") {
 		res.Fail(P3, "main part %q of the re-saved package has content type %q", tgt, ct)
+	}
+}
+
+// checkOptParts: an optional part of the re-saved package that the input carried well-formed (or did not carry at all: the
+// library wrote it) is well-formed. A part the input carried damaged is the producer's, not the library's: no claim.
+func (j *judge) checkOptParts(pkg *opc.Package) {
+	res := j.res
+	for _, name := range TheOptVocab().Parts {
+		out, ok := pkg.Parts[name]
+		if !ok {
+			continue
+		}
+		in := j.in.Opt[name]
+		if in != nil && bytes.Equal(in.Data, out) {
+			res.Label("opt-out:verbatim:" + name) // byte-identical to the input: nothing the library wrote
+			continue
+		}
+		if len(out) > maxOptJudged || (in != nil && len(in.Data) > maxOptJudged) {
+			res.Count("part_wf_skipped_large", 1)
+			continue
+		}
+		if in != nil && !in.wellFormed() {
+			res.Count("part_wf_not_applicable", 1)
+			continue
+		}
+		res.Count("part_wf_observed", 1)
+		if in == nil {
+			res.Label("opt-out:written:" + name)
+		} else {
+			res.Label("opt-out:extended:" + name)
+		}
+		if err := xmlwf.Check(out); err != nil {
+			what := "written by the library (the input had none)"
+			if in != nil {
+				what = fmt.Sprintf("well-formed in the input (%d bytes, root %s, %d children, %d of them in another namespace)", len(in.Data), in.RootLocal, in.Children, in.Foreign)
+			}
+			// C06 as stated demands a well-formed regenerated MAIN part only; well-formedness of every other part of a
+			// saved package is C01's statement (judged there on foreign starts). Observed and counted here, never a
+			// C06 failure (coordinator's decision: the clause went beyond the statement).
+			res.Count("part_wf_observed_ill_formed", 1)
+			res.Label("observed:optional-part-ill-formed:" + name)
+			_ = what
+		}
+	}
+}
+
+// opName splits "RemoveFootnote:7" into the call and its argument.
+func opName(op string) (name, arg string) {
+	if i := strings.IndexByte(op, ':'); i >= 0 {
+		return op[:i], op[i+1:]
+	}
+	return op, ""
+}
+
+// runFollow makes the calls of a follow-up script (optparts.go: FollowOps). Errors are acceptable, panics are not.
+func (j *judge) runFollow(doc *document.Document, script []string, which string) {
+	const R, E, S = "C06.T2.read", "C06.T2.edit", "C06.T2.save"
+	res := j.res
+	before := j.panics
+	for i, op := range script {
+		if j.panics > before {
+			// a panic inside a lazily created manager leaves it half-built: every later call of the script would report the same
+			res.Count("follow_calls_skipped_after_panic", len(script)-i)
+			return
+		}
+		name, arg := opName(op)
+		what := fmt.Sprintf("%s (call %d of the %s %v)", op, i+1, which, script)
+		if len(what) > 300 {
+			what = what[:300] + "…"
+		}
+		switch name {
+		case "AddBulletList":
+			j.call(E, what, "", func() { doc.AddBulletList("item", 0, document.BulletTypeDot) })
+		case "AddNumberedList":
+			j.call(E, what, "", func() { doc.AddNumberedList("item", 1, document.ListTypeDecimal) })
+		case "AddListItem":
+			var cfg *document.ListConfig
+			if arg != "nil" {
+				cfg = &document.ListConfig{Type: document.ListTypeLowerRoman, IndentLevel: 2, StartNumber: 3}
+			}
+			j.call(E, what, "", func() { doc.AddListItem("item", cfg) })
+		case "CreateMultiLevelList":
+			j.call(E, what, "", func() {
+				doc.CreateMultiLevelList([]document.ListItem{{Text: "a", Level: 0, Type: document.ListTypeDecimal, StartNumber: 1}, {Text: "b", Level: 1, Type: document.ListTypeBullet, BulletSymbol: document.BulletTypeDash}})
+			})
+		case "RestartNumbering":
+			j.call(E, what, "", func() { doc.RestartNumbering(arg) })
+		case "AddFootnote":
+			j.call(E, what, "", func() { doc.AddFootnote("text", "a new footnote") })
+		case "AddEndnote":
+			j.call(E, what, "", func() { doc.AddEndnote("text", "a new endnote") })
+		case "AddFootnoteToRun":
+			j.call(E, what, "", func() {
+				for _, p := range doc.Body.GetParagraphs() {
+					if p != nil && len(p.Runs) > 0 {
+						doc.AddFootnoteToRun(&p.Runs[0], "a footnote on an opened run")
+						return
+					}
+				}
+			})
+		case "GetFootnoteCount":
+			res.Eval(R)
+			j.call(R, what, "", func() { doc.GetFootnoteCount() })
+		case "GetEndnoteCount":
+			res.Eval(R)
+			j.call(R, what, "", func() { doc.GetEndnoteCount() })
+		case "RemoveFootnote":
+			j.call(E, what, "", func() { doc.RemoveFootnote(arg) })
+		case "RemoveEndnote":
+			j.call(E, what, "", func() { doc.RemoveEndnote(arg) })
+		case "SetFootnoteConfig":
+			var cfg *document.FootnoteConfig
+			if arg != "nil" {
+				cfg = &document.FootnoteConfig{NumberFormat: document.FootnoteFormatLowerRoman, StartNumber: 2, RestartEach: document.FootnoteRestartEachSection, Position: document.FootnotePositionBeneathText}
+			}
+			j.call(E, what, "", func() { doc.SetFootnoteConfig(cfg) })
+		case "AddHeadingParagraph":
+			lvl, _ := strconv.Atoi(arg)
+			if lvl < 1 || lvl > 9 {
+				lvl = 2
+			}
+			j.call(E, what, "", func() { doc.AddHeadingParagraph("added heading", lvl) })
+		case "SetStyle":
+			j.call(E, what, "", func() {
+				if p := doc.AddParagraph("styled"); p != nil {
+					p.SetStyle(arg)
+				}
+			})
+		case "ApplyTableStyle":
+			j.call(E, what, "", func() {
+				var t *document.Table
+				if ts := doc.Body.GetTables(); len(ts) > 0 && ts[0] != nil {
+					t = ts[0]
+				} else {
+					t, _ = doc.AddTable(&document.TableConfig{Rows: 1, Cols: 1, Width: 2000})
+				}
+				if t != nil {
+					t.ApplyTableStyle(&document.TableStyleConfig{StyleID: arg, FirstRowHeader: true, BandedRows: true})
+				}
+			})
+		case "AddStyle":
+			j.call(E, what, "", func() {
+				if sm := doc.GetStyleManager(); sm != nil {
+					sm.AddStyle(&style.Style{Type: "paragraph", StyleID: arg, Name: &style.StyleName{Val: arg}, BasedOn: &style.BasedOn{Val: "Normal"}, CustomStyle: true})
+				}
+			})
+		case "ModifyStyle":
+			j.call(E, what, "", func() {
+				if sm := doc.GetStyleManager(); sm != nil {
+					if st := sm.GetStyle(arg); st != nil {
+						st.Name = &style.StyleName{Val: arg + " (modified)"}
+					}
+				}
+			})
+		case "ToBytes":
+			res.Eval(S)
+			var out []byte
+			var err error
+			if j.call(S, what, "", func() { out, err = doc.ToBytes() }) && err == nil {
+				j.checkSaved(out)
+			}
+		}
 	}
 }
